@@ -76,6 +76,61 @@ def make_bytes(form, enc):
     return ob
 
 
+from AccessControl.tainted import TaintedString       # noqa: E402
+
+T_SEQ = cooked('&dtml-t;|&dtml-x;|<dtml-in seq>&dtml-t;<dtml-var x html_quote></dtml-in>')
+
+
+def ob_after_tainted(s: str) -> bool:
+    """an untainted value inserted AFTER a tainted one in the same block list is still escaped (per-insertion decision)"""
+    out = T_SEQ(t=TaintedString('<i>'), x=s, seq=[1])
+    e = ref_escape(s)
+    return out == '&lt;i&gt;|' + e + '|&lt;i&gt;' + e
+
+
+class StrBytes:
+    def __init__(self, b):
+        self.b = b
+
+    def __str__(self):
+        return self.b
+
+
+class StrObj:
+    def __init__(self, s):
+        self.s = s
+
+    def __str__(self):
+        return self.s
+
+
+VPOOL = ['<k>', "it's", 'a&b', '', 'é"']
+
+
+def ob_nonstring_values(j: int, kind: int) -> bool:
+    """the value's string form is the same for every quoting form: exceptions are inserted as their message, objects through
+    their own __str__ (also when it returns bytes)"""
+    s = VPOOL[0]
+    for i in range(len(VPOOL)):
+        if j == i:
+            s = VPOOL[i]
+    if kind == 0:
+        v = KeyError(s)
+    elif kind == 1:
+        v = ValueError(s)
+    elif kind == 2:
+        v = StrObj(s)
+    elif kind == 3:
+        v = StrBytes(s.encode('utf-8'))
+    else:
+        v = ValueError(StrObj(s))
+    want = ref_escape(s)
+    for k in ('entity', 'var_hq', 'fmt_hq', 'hq_size', 'ent_mod', 'expr_hq'):
+        if T2['utf-8'][k](x=v) != 'a' + want:
+            return False
+    return True
+
+
 OBLIGATIONS = []
 for _f, (_src, _cls, _tr, _fast) in FORMS.items():
     n = NF if _fast else N
@@ -106,3 +161,6 @@ def explain(obname, args):
         except Exception as e:
             out[k] = repr(e)
     return 'outputs per form for s=%r: %r; expected %r' % (s, out, ref_escape(s))
+OBLIGATIONS.append(Ob('after_tainted', ob_after_tainted, ['len(s) <= 2'], timeout=tier(250, 900), data='s: str len <= 2', selectors='tainted value first, then the symbolic untainted value, top level and inside dtml-in'))
+OBLIGATIONS.append(Ob('nonstring_values', ob_nonstring_values, ['0 <= j < %d' % len(VPOOL), '0 <= kind <= 4'], timeout=tier(150, 600), data='message picked from %r' % VPOOL,
+                      selectors='KeyError / ValueError / object with __str__ -> str / -> bytes / exception with object message, through six quoting forms'))
